@@ -249,3 +249,140 @@ pub fn run_shape(which: usize, ops: &[(Op, Fault)], variant: u64) -> Option<Stri
         _ => run_mixed(ops, variant),
     }
 }
+
+// ---------------------------------------------------------------------------------------------
+// State types: the animator must not care what kind of type the state is
+// ---------------------------------------------------------------------------------------------
+
+#[derive(Clone, Copy, Debug, Default, Eq, PartialEq, State)]
+pub enum Load {
+    #[default]
+    Light,
+    Heavy,
+}
+
+/// A state type with a payload-carrying variant (`Busy(Light)` and `Busy(Heavy)` are different
+/// states with the same discriminant).
+#[derive(Clone, Copy, Debug, Default, Eq, PartialEq, State)]
+pub enum Mode {
+    #[default]
+    Idle,
+    Busy(Load),
+    Off,
+}
+
+const MODES: [Mode; 4] = [Mode::Idle, Mode::Busy(Load::Light), Mode::Busy(Load::Heavy), Mode::Off];
+
+/// Drives two animators with the same timelines and the same trace - one keyed by the plain
+/// five-variant `St` (only its first four states are used), one keyed by the nested `Mode` - and
+/// returns a description of the first difference in values / current state / is_ended.
+pub fn state_type_probe(spec: &simmodel::AnimSpec, ops: &[(Op, Fault)]) -> Option<String> {
+    use simmodel::{St, Vals, ValsTimeline};
+    let initial = (spec.initial_state as usize) % 4;
+    let mut plain = StateAnimatorBuilder::<St, ValsTimeline>::new()
+        .from_state(St::from_index(initial))
+        .from_values(spec.initial_values.clone());
+    let mut nested = StateAnimatorBuilder::<Mode, ValsTimeline>::new()
+        .from_state(MODES[initial])
+        .from_values(spec.initial_values.clone());
+    for i in 0..4 {
+        if let Some(m) = &spec.states[i] {
+            plain = plain.on(St::from_index(i), m.build());
+            nested = nested.on(MODES[i], m.build());
+        }
+    }
+    let (mut plain, mut nested) = (plain.build(), nested.build());
+    let same = |x: &Vals, y: &Vals| simmodel::vals_differ(x, y).is_none();
+    for (i, (op, _)) in ops.iter().enumerate() {
+        match op {
+            Op::Advance(dt) => {
+                plain.advance(*dt);
+                nested.advance(*dt);
+            }
+            Op::SetState(s) => {
+                let s = *s as usize % 4;
+                plain.set_state(&St::from_index(s));
+                nested.set_state(&MODES[s]);
+            }
+        }
+        let ps = plain.current_state().index();
+        let ns = MODES.iter().position(|m| m == nested.current_state()).unwrap_or(99);
+        if ps != ns {
+            return Some(format!(
+                "after operation {i} ({op:?}) the animator keyed by a payload-carrying state type is in {:?}, the one keyed by a plain enum in state {ps}",
+                nested.current_state()
+            ));
+        }
+        if !same(plain.current_values(), nested.current_values()) || plain.is_ended() != nested.is_ended() {
+            return Some(format!(
+                "after operation {i} ({op:?}) two animators with the same timelines and history differ only in their state *type*: {} ended={} vs {} ended={}",
+                simmodel::vals_brief(plain.current_values()), plain.is_ended(),
+                simmodel::vals_brief(nested.current_values()), nested.is_ended()
+            ));
+        }
+    }
+    None
+}
+
+// ---------------------------------------------------------------------------------------------
+// f64 properties (C20): finite in, finite out
+// ---------------------------------------------------------------------------------------------
+
+#[derive(Animate, Clone, Debug, Default, PartialEq)]
+pub struct Wide {
+    #[animate]
+    pub p: f64,
+    #[animate]
+    pub q: f64,
+    pub keep: u8,
+}
+
+/// Segments whose two ends are both exactly zero, values below f32's smallest normal number, large
+/// magnitudes of both signs: every value an f64 property shows must stay finite.
+pub fn f64_probe(ops: &[(Op, Fault)], variant: u64) -> Option<String> {
+    let tiny = if variant & 1 == 1 { 1.0e-40 } else { 0.0 };
+    let big = if variant & 2 == 2 { 3.0e38 } else { 12.5 };
+    let tl = || {
+        Wide::timeline()
+            .duration_seconds(1.5)
+            .reverse(variant & 4 == 4)
+            .repeat(Repeat::Times(1))
+            .keyframe(Wide::keyframe(0.0).p(0.0).q(-big))
+            .keyframe(Wide::keyframe(0.25).p(0.0))
+            .keyframe(Wide::keyframe(0.5).p(tiny).q(big))
+            .keyframe(Wide::keyframe(0.75).p(-0.0))
+            .keyframe(Wide::keyframe(1.0).p(0.0).q(0.0))
+    };
+    let finite = |v: &Wide, what: &str| -> Option<String> {
+        if v.p.is_finite() && v.q.is_finite() {
+            None
+        } else {
+            Some(format!("f64 properties: {what} produced p={} q={} from finite keyframes", v.p, v.q))
+        }
+    };
+    let bare = TimelineBuilder::build(tl());
+    for i in 0..40 {
+        let t = i as f32 * 0.1;
+        let mut v = Wide::default();
+        bare.update(&mut v, t);
+        if let Some(d) = finite(&v, &format!("Timeline::update at t={t}")) {
+            return Some(d);
+        }
+    }
+    let mut anim = StateAnimatorBuilder::new()
+        .from_state(Sh::C)
+        .from_values(Wide { p: 0.0, q: 0.0, keep: 1 })
+        .on(Sh::A, tl())
+        .on(Sh::B, Wide::timeline().keyframe(Wide::keyframe(1.0).p(0.0).q(0.0)))
+        .build();
+    for (i, (op, _)) in ops.iter().enumerate() {
+        match op {
+            Op::Advance(dt) => anim.advance(*dt),
+            Op::SetState(s) => anim.set_state(&SH[*s as usize % 3]),
+        }
+        if let Some(d) = finite(anim.current_values(), &format!("operation {i} ({op:?})")) {
+            return Some(d);
+        }
+    }
+    None
+}
